@@ -266,3 +266,31 @@ package loader
 //@   loop 0 invariant len(l.enumConstraint.items) >= old(len(l.enumConstraint.items))
 //@   loop 0 invariant l.enumConstraint.items.$arr == old(l.enumConstraint.items.$arr) || fresh(l.enumConstraint.items)
 //@   loop 0 invariant forall j :: 0 <= j && j < old(len(l.enumConstraint.items)) ==> l.enumConstraint.items[j] == old(l.enumConstraint.items[j])
+
+// ---- C08: "every rule is known": a literal-valued rule reaches the node only through
+// NewConstraintFromRule, so an unknown name is an error positioned at the name
+//@ func (*ruleLoader).ruleValueLiteral(ruleValue)
+//@   props C08 C13
+//@   requires rl != nil && isNode(rl.node) && lexWF(rl.ruleNameLex) && lexWF(ruleValue)
+//@   requires ruleValue.end + 1 - ruleValue.begin <= 1000000000000 && rl.ruleNameLex.end + 1 - rl.ruleNameLex.begin <= 1000000000000
+//@   maypanic
+//@   modifies *
+//@   ensures ruleValue.lexEventType != lexeme.LiteralEnd ==> panics
+//@   ensures ruleValue.lexEventType == lexeme.LiteralEnd && !old(knownRuleName(ruleNameText(lexBytes(rl.ruleNameLex))))
+//@           ==> panics && typeis(pv, errors.DocumentError) && unbox(pv, errors.DocumentError).code == errors.ErrUnknownRule && unbox(pv, errors.DocumentError).index == old(rl.ruleNameLex.begin)
+
+// C13: inside an `or` rule-set the key `enum` switches to the enum value loader - for
+// every spelling of the key that names the rule (bare, quoted, padded)
+//@ func (*orRuleSetLoader).makeTypeFromRuleSet()
+//@   props C03
+//@   trusted "turns the collected rule-set into a type: arbitrary effect (not verified)"
+//@   maypanic
+//@   modifies *
+//@ func (*orRuleSetLoader).keyOrObjectEnd(lex)
+//@   props C13 C08
+//@   requires s != nil && lexWF(lex) && lex.end + 1 - lex.begin <= 1000000000000
+//@   maypanic
+//@   modifies *
+//@   ensures normal && lex.lexEventType == lexeme.ObjectKeyEnd ==> s.ruleNameLex == lex
+//@   ensures normal && lex.lexEventType == lexeme.ObjectKeyEnd && old(beq(ruleNameText(lexBytes(lex)), "enum")) ==> boundis(s.stateFunc, orRuleSetLoader, "enumValueBegin")
+//@   ensures normal && lex.lexEventType == lexeme.ObjectKeyEnd && !old(beq(ruleNameText(lexBytes(lex)), "enum")) ==> boundis(s.stateFunc, orRuleSetLoader, "valueBegin")
